@@ -167,6 +167,10 @@ def build(case):
         if case.get('lease'):
             ops += [GRANT, ['settle']]  # the new server grants a lease of its own
         ops += [['mark', 'reconnected']]
+        # the application's publishers of the failed channels were told to stop; one that was not would go on producing
+        for uid in cur['pending']:
+            if inter[uid]['k'] == 'ch':
+                ops += [['emit', uid, 'req', 2], ['tick', 2]]
         plan.append(cur)
         cur = {'pending': [], 'probes': [], 'during': []}
         add_probes()
@@ -206,6 +210,14 @@ def judge(case):
                     out.append(viol('pending_subscriber_not_failed', 'C17:pending_not_failed:%s:%s' % (spec['k'], e['kind']),
                                     uid=uid, **facts))
         frames = [x for x in sends if x.get('cx') == new]
+        opened_here = set()
+        for x in frames:
+            f = x['f']
+            if f['type'] in monitors.REQ_TYPES:
+                opened_here.add(f['sid'])
+            elif f['sid'] and f['sid'] % 2 == 1 and f['sid'] not in opened_here:
+                out.append(viol('frame_of_previous_connection_on_new_one', 'C17:stale_frame:%s' % f['type'], sid=f['sid'], **facts))
+                break
         if not frames:
             out.append(viol('nothing_sent_on_new_transport', 'C17:nothing_sent:%s' % e['kind'], **facts))
             continue
